@@ -239,7 +239,7 @@ Theorem C13_holds_load_sound :
   holds_load k = true ->
   match l_out k with
   | ORet t _ =>
-      ~ some_cell (miss_must false) (l_raw k) /\ ~ some_cell multi_must (l_raw k)
+      ~ some_cell (miss_must (l_anc k)) (l_raw k) /\ ~ some_cell multi_must (l_raw k)
       /\ ~ some_cell unph_must (l_raw k) /\ t = strip_phase (cast_bool (l_raw k))
   | ORaise s v _ =>
       exists s' v' x, s = Some s' /\ v = Some v' /\ named_cell (l_raw k) s' v' = Some x
